@@ -20,7 +20,7 @@ RULE = ("seeded programs of constructor / + - * (plain, reflected, scalar, conta
         "pool (expression depth >= 6), with scribble / freeze / gv_reconf faults, checked op by op against an array "
         "model; distinct = (op, class+layout, rhs kind, noise pattern, dtype kinds, length class, outcome) "
         "signatures reached in runs with >=3 successful library ops")
-WALL = {"quick": 60, "thorough": 180, "replay": 60}
+WALL = {"quick": 300, "thorough": 900, "replay": 600}
 BLOCK = {"quick": 100000, "thorough": 8192}
 SELFTEST = {"quick": 24, "thorough": 200}
 COMPONENTS_REAL = ["opticomlib.typing.electrical_signal", "opticomlib.typing.optical_signal", "opticomlib.typing.gv",
@@ -75,6 +75,8 @@ def generate(seed, tier):
     base_len = rng.choice(LENGTHS if rng.random() < 0.9 else [65536 if tier == "thorough" else 4096])
     if base_len >= 4096 and rng.random() < 0.7:
         base_len = rng.choice(LENGTHS[:9])
+    if rng.random() < 0.002:            # size-dependent fast paths: a few runs work on very long records
+        base_len = rng.choice([(1 << 17) + 1, (1 << 20) + 3, 300007])
     cls_bias = rng.choice([None, "E", "O"])
     w = {"new": 5, "binop": 12, "slice": 5, "copy": 2, "call": 2, "scribble": rng.choice([0, 2, 4]),
          "freeze": rng.choice([0, 1, 2]), "gv": rng.choice([0, 1]), "drop": 1}
@@ -200,7 +202,7 @@ def _form(arr, form):
 
 
 def _lenclass(n):
-    return "1" if n == 1 else "2" if n == 2 else "s" if n <= 31 else "m" if n <= 300 else "L"
+    return "1" if n == 1 else "2" if n == 2 else "s" if n <= 31 else "m" if n <= 300 else "L" if n <= 70000 else "XL"
 
 
 def _kind(dt):
@@ -321,6 +323,10 @@ class Machine:
         layout = op.get("layout", "1d") if cls == "O" else "1d"
         n_pol = op.get("n_pol") if cls == "O" else None
         scalar = form in ("scalar", "npscalar")
+        if n > 70000 and form in ("str", "strbits", "list", "tuple", "list_bool"):
+            form = "ndarray" if form != "list_bool" else "arr_bool"
+        if n > 70000 and op.get("noise") == "str":
+            op = dict(op, noise="same")
         if layout == "1xN" and (form in ("str", "strbits") or op.get("noise") == "str"):
             layout = "1d"        # a single row of text is 1-D by the parsing rule
         shape = () if scalar else (n,) if layout == "1d" else (1, n) if layout == "1xN" else (2, n)
